@@ -110,6 +110,9 @@ func loadProg(dir string, overlay map[string][]byte) (*Prog, error) {
 		if fn.Synthetic != "" || fn.Blocks == nil {
 			continue
 		}
+		if fn.Pkg != nil && strings.HasPrefix(fn.Pkg.Pkg.Path(), modPath) {
+			canonicalizeComparisons(fn)
+		}
 		if fn.Pkg == nil || !inScope[fn.Pkg.Pkg] {
 			continue
 		}
@@ -130,6 +133,83 @@ func loadProg(dir string, overlay map[string][]byte) (*Prog, error) {
 		return a.Pos() < b.Pos()
 	})
 	return p, nil
+}
+
+// canonicalizeComparisons rewrites, in place, every comparison whose left operand is more argument-like than its
+// right one (`nil == err`, `0 < n`, `comp > cell`) into the mirrored form (`err == nil`, `n > 0`, `cell < comp`).
+// The two spellings mean the same; the rules are written against the second. Operands, and therefore referrer lists,
+// stay the same set.
+func canonicalizeComparisons(fn *ssa.Function) {
+	flip := map[token.Token]token.Token{token.EQL: token.EQL, token.NEQ: token.NEQ, token.LSS: token.GTR, token.GTR: token.LSS, token.LEQ: token.GEQ, token.GEQ: token.LEQ}
+	for _, b := range fn.Blocks {
+		for _, in := range b.Instrs {
+			bo, ok := in.(*ssa.BinOp)
+			if !ok {
+				continue
+			}
+			op, isCmp := flip[bo.Op]
+			if !isCmp {
+				continue
+			}
+			// rank: a constant is the most argument-like operand, then a parameter (possibly converted), then anything
+			// computed or loaded (a cell, a length, a counter); the more argument-like operand goes to the right, so
+			// `comp > column[index[i]]` reads `column[index[i]] < comp` and `nil == err` reads `err == nil`
+			if cmpRank(bo.X) > cmpRank(bo.Y) {
+				bo.X, bo.Y, bo.Op = bo.Y, bo.X, op
+			}
+		}
+	}
+	for _, af := range fn.AnonFuncs {
+		canonicalizeComparisons(af)
+	}
+}
+
+func cmpRank(v ssa.Value) int {
+	for {
+		switch t := v.(type) {
+		case *ssa.Convert:
+			v = t.X
+			continue
+		case *ssa.ChangeType:
+			v = t.X
+			continue
+		}
+		break
+	}
+	switch t := v.(type) {
+	case *ssa.Const:
+		return 4
+	case *ssa.Parameter:
+		return 3
+	case *ssa.Call:
+		// a length is a bound: `len(x) > i` reads `i < len(x)`
+		if b, ok := t.Call.Value.(*ssa.Builtin); ok && (b.Name() == "len" || b.Name() == "cap") {
+			return 2
+		}
+	case *ssa.UnOp:
+		// a package-level value (io.EOF) is constant-like: `io.EOF == err` reads `err == io.EOF`
+		if _, ok := t.X.(*ssa.Global); ok && t.Op == token.MUL {
+			return 2
+		}
+	case *ssa.Phi:
+		// a loop counter is what is being tested: `n > i` reads `i < n`
+		return 0
+	case *ssa.BinOp:
+		// arithmetic on a bound is a bound (`len(s)+4`), but no more than that
+		switch t.Op {
+		case token.ADD, token.SUB, token.MUL, token.QUO:
+			r := 1
+			for _, o := range []ssa.Value{t.X, t.Y} {
+				if k := cmpRank(o); k >= 2 && r < 2 {
+					if _, isConst := o.(*ssa.Const); !isConst {
+						r = 2
+					}
+				}
+			}
+			return r
+		}
+	}
+	return 1
 }
 
 // dropDeadFuncs removes from p.Funcs the functions no user of the library can reach: roots are every method
